@@ -122,9 +122,11 @@ append_derivation(CPPType *base, CPPVisibility vis, bool is_virtual) {
       def = base->as_typedef_type();
     }
 
-    if (vis == V_unknown && base->as_extension_type() != nullptr) {
-      // Default visibility.
-      if (base->as_extension_type()->_type == T_class) {
+    if (vis == V_unknown) {
+      // Default visibility.  This depends on what kind of thing is deriving,
+      // not on what it derives from: "struct D : B" inherits publicly,
+      // "class D : B" privately.
+      if (_type == T_class) {
         vis = V_private;
       } else {
         vis = V_public;
